@@ -427,7 +427,7 @@ func ExprPost(r *Expression, left any, op Operator, right []any) bool {
 	if op == Boost {
 		if len(right) == 1 && isFloat(right[0]) {
 			p, _ := right[0].(float64)
-			return r.Op == Boost && r.Left == l && r.Right == nil && r.boostPower == p && r.fuzzyDistance == 1
+			return r.Op == Boost && r.Left == l && r.Right == nil && verifspec.SameFloat(r.boostPower, p) && r.fuzzyDistance == 1
 		}
 		return r.Op == Boost && r.Left == l && r.Right == nil && r.boostPower == 1.0 && r.fuzzyDistance == 1
 	}
